@@ -1,19 +1,6 @@
 (* Proofs of the padding laws (C20) about Model/Padding.v *)
-From Iso Require Import Model.Base Model.Padding.
+From Iso Require Import Model.Base Model.Padding Proofs.BaseLemmas.
 From Coq Require Import ZifyBool ZifyNat.
-
-Lemma byte_eqb_refl c : Byte.eqb c c = true.
-Proof. apply Byte.byte_dec_lb. reflexivity. Qed.
-
-Lemma byte_eqb_eq a b : Byte.eqb a b = true <-> a = b.
-Proof. split; [apply Byte.byte_dec_bl | apply Byte.byte_dec_lb]. Qed.
-
-Lemma byte_eqb_neq a b : Byte.eqb a b = false <-> a <> b.
-Proof.
-  split.
-  - intros H E. subst. rewrite byte_eqb_refl in H. discriminate.
-  - intros H. destruct (Byte.eqb a b) eqn:E; auto. apply byte_eqb_eq in E. contradiction.
-Qed.
 
 (* ---- drop_while ---- *)
 Definition starts_with (c : byte) (l : bytes) : bool :=
